@@ -243,7 +243,10 @@ theorem b_processNotify (D : List Nat) (st : St) (a : Nat) (ha : a < st.heap.len
   obtain ⟨h1, h2⟩ := b.k.p2 a ha hs
   split
   · exact b_fail _ _ _ b
-  · exact b_invokeWatch _ _ _ _ _ h1 h2 b
+  · have q := q0_clearNotify st (st.getW a).puser
+    have hc : BStep D st (clearNotify st (st.getW a).puser) :=
+      BStep.of_q0 q (g4_clearNotify st _).lstep (r2_clearNotify [] st _)
+    exact b_invokeWatch _ _ _ _ _ (Nat.lt_of_lt_of_le h1 q.b.h.len) (q.b.h.notOneShot h1 h2) (hc b)
 
 /-! ### the callback of a detached watch -/
 
@@ -756,8 +759,20 @@ theorem b_with_inRun (D : List Nat) (st : St) (b : Bool) : BStep D st { st with 
   BStep.of_q0 (q0_with_inRun st b) (g4_with_inRun st b).lstep (r2_with_inRun _ _ _)
 
 /-- `tickit_watch_cancel` of a watch that is not a timer / deferred callback (the loop's own signal watches). -/
-theorem b_watchCancel_other (D : List Nat) (st : St) (a : Nat) (ht : isOneShot (st.getW a).type = false) : BStep D st (watchCancel st a) :=
-  BStep.of_q0 (q0_watchCancel st a) (l_watchCancel st a) (r2_watchCancel _ st a (Or.inl ht))
+theorem b_watchCancel_other (D : List Nat) (st : St) (a : Nat) (ht : isOneShot (st.getW a).type = false) : BStep D st (watchCancel st a) := by
+  intro b
+  by_cases ha : a < st.heap.length
+  · exact BStep.of_q0 (q0_watchCancel st a) (l_watchCancel st a) (r2_watchCancel _ st a (Or.inl ht) (b.k.p3 a ha)) b
+  · -- not allocated: `tickit_watch_cancel` reads a freed watch
+    have hl : st.live a = false := by
+      cases h : st.live a with
+      | false => rfl
+      | true => exact absurd (St.live_lt h) ha
+    have hno : (st.getW a).notify = none := by
+      unfold St.getW
+      rw [List.getD_eq_getElem?_getD, List.getElem?_eq_none (by omega)]
+      rfl
+    exact BStep.of_q0 (q0_watchCancel st a) (l_watchCancel st a) (r2_watchCancel _ st a (Or.inl ht) (fun l h => by rw [hno] at h; cases h)) b
 
 /-- The watch `tickit_watch_signal` makes is a signal watch. -/
 theorem type_watchSignal (st : St) (signum : Int) (flags : Nat) (slot : Int) :
@@ -905,7 +920,7 @@ theorem b_build (cfg : Config) (hr : Rep cfg) : B [] (build cfg) := by
   obtain ⟨w, hc⟩ := wf_build cfg hr.1
   have k0 : K (build0 cfg) :=
     ⟨fun a ha => (by cases ha), List.nodup_nil, fun r hr => (by cases hr), fun s hs => (by cases hs), fun l hl => (by cases hl),
-     fun r hr => (by cases hr)⟩
+     fun r hr => (by cases hr), fun x hx => (by cases hx)⟩
   have o0 : Once none (build0 cfg) := fun r hr => by cases hr
   have l0 : Listed [] (build0 cfg) := fun _ _ a ha => by cases ha
   have g0 : Gone (build0 cfg) := fun _ r hr => by cases hr
